@@ -305,7 +305,12 @@ C09Raw == { [st |-> Select(<<F(ACall("substr", <<AKey, AInt(0), AInt(1)>>), "p")
               f \in { F(Call1("sum", AVal), "s"), F(Call1("avg", AVal), "av"), F(Call1("min", AVal), "m"), F(Call1("max", AVal), "x"), F(ABin("*", Call1("sum", AVal), AInt(2)), "s2") } }
           \cup { [st |-> Select(<<f>>, w, <<>>, <<>>, NoLim), sid |-> "M"] :
               f \in { F(Call1("sum", AVal), "s"), F(Call1("avg", AVal), "av") }, w \in { All, ABin("^=", AKey, AStr(bb)), ABin("^=", AKey, AStr(dd)) } }
-C09Cases == C09Grouped \cup C09All \cup C09Refs \cup C09Empty \cup C09Raw
+\* integer and fractional texts in one group, in both orders, negative ones too
+StoreX == << SP(<<97, 49>>, Dig(2)), SP(<<97, 50>>, <<50, 46, 53>>), SP(<<98, 49>>, Dig(3)), SP(<<98, 50>>, <<50, 46, 53>>), SP(<<99, 49>>, <<45, 50>>), SP(<<99, 50>>, <<45, 50, 46, 53>>),
+             SP(<<100, 49>>, <<50, 46, 53>>), SP(<<100, 50>>, Dig(3)), SP(<<101, 49>>, <<45, 50, 46, 53>>), SP(<<101, 50>>, <<45, 50>>), SP(<<102, 49>>, Dig(7)) >>
+C09MixedText == { [st |-> Select(<<F(ACall("substr", <<AKey, AInt(0), AInt(1)>>), "p"), f>>, All, <<>>, <<1>>, NoLim), sid |-> "X"] :
+              f \in { F(Call1("sum", AVal), "s"), F(Call1("avg", AVal), "av"), F(Call1("min", AVal), "m"), F(Call1("max", AVal), "x"), F(ABin("-", Call1("max", AVal), Call1("min", AVal)), "r") } }
+C09Cases == C09MixedText \cup C09Grouped \cup C09All \cup C09Refs \cup C09Empty \cup C09Raw
 
 -----------------------------------------------------------------------------
 (* c05: aliases and the field cache.  Stores in which the first, middle and last scanned rows fail the filter. *)
@@ -359,8 +364,8 @@ C05KCases == UNION { C05KFor(n) : n \in 1..(IF Scale >= 2 THEN 5 ELSE 4) }
 
 -----------------------------------------------------------------------------
 StoreOf(sid) == CASE sid = "T" -> StoreT [] sid = "I" -> StoreI [] sid = "F" -> StoreF [] sid = "E" -> <<>>
-                  [] sid = "J" -> StoreJ [] sid = "O" -> StoreO [] sid = "M" -> StoreM [] sid = "G" -> StoreG [] sid = "Z" -> StoreZ [] sid = "B" -> StoreB [] sid = "V" -> StoreV [] sid = "S40" -> SeqStore(40) [] sid = "S7" -> SeqStore(7) [] sid \in {"K" \o ToString(n) : n \in 1..5} -> StoreK(CHOOSE n \in 1..5 : "K" \o ToString(n) = sid) [] sid \in {SizeId(n) : n \in 0..100} -> SeqStore(CHOOSE n \in 0..100 : SizeId(n) = sid) [] OTHER -> <<>>
-StoreIds == {"T", "I", "F", "E", "J", "V", "O", "G", "M", "Z", "B", "S40", "S7"} \cup {SizeId(n) : n \in SizesSmall \cup SizesBig} \cup {"K" \o ToString(n) : n \in 1..5}
+                  [] sid = "J" -> StoreJ [] sid = "O" -> StoreO [] sid = "M" -> StoreM [] sid = "G" -> StoreG [] sid = "Z" -> StoreZ [] sid = "X" -> StoreX [] sid = "B" -> StoreB [] sid = "V" -> StoreV [] sid = "S40" -> SeqStore(40) [] sid = "S7" -> SeqStore(7) [] sid \in {"K" \o ToString(n) : n \in 1..5} -> StoreK(CHOOSE n \in 1..5 : "K" \o ToString(n) = sid) [] sid \in {SizeId(n) : n \in 0..100} -> SeqStore(CHOOSE n \in 0..100 : SizeId(n) = sid) [] OTHER -> <<>>
+StoreIds == {"T", "I", "F", "E", "J", "V", "O", "G", "M", "Z", "B", "X", "S40", "S7"} \cup {SizeId(n) : n \in SizesSmall \cup SizesBig} \cup {"K" \o ToString(n) : n \in 1..5}
 
 Cases == CASE Mode = "c01" -> C01Cases [] Mode = "pt" -> PtCases [] Mode = "c10" -> C10Cases [] Mode = "c04" -> C04Cases [] Mode = "c08" -> C08Select [] Mode = "c08d" -> C08Delete [] Mode = "c07" -> C07Cases [] Mode = "c09" -> C09Cases [] Mode = "c05" -> C05Cases [] Mode = "c05k" -> C05KCases [] OTHER -> {}
 
